@@ -81,17 +81,15 @@ def family_lists(p):
 def name_to_op_keys(p, fam):
     m = p.module("adapter.einx_from_namedtensor")
     vals = p.module_var(m, "_name_to_op")
-    keys = set()
-    for n in ast.walk(vals[0]):
-        if isinstance(n, ast.DictComp):
-            ch = attr_chain(n.generators[0].iter)
-            if ch and ch[:2] == ["adapter", "ops"] and ch[2] in fam:
-                keys |= set(fam[ch[2]])
-        elif isinstance(n, ast.Dict):
-            for k in n.keys:
-                if isinstance(k, ast.Constant):
-                    keys.add(k.value)
-    return keys
+    # the table is evaluated as a literal (dict displays, `**` spreads, `|` unions, comprehensions over the family
+    # lists of adapter/ops.py, dict.fromkeys, dict(...)): only the keys matter
+    try:
+        d = LiteralEvaluator(p, m).eval(vals[0])
+    except Exception as e:
+        raise AnalysisError(f"unrecognised idiom: the key set of einx_from_namedtensor._name_to_op cannot be evaluated ({e})") from e
+    if not isinstance(d, dict):
+        raise AnalysisError("unrecognised idiom: einx_from_namedtensor._name_to_op is not a dict")
+    return set(d.keys())
 
 
 def classical_reads(p):
@@ -117,8 +115,9 @@ def r1(p, rep):
     # (a) every wrapper dispatches to the same-named backend operation
     for f in wrappers:
         rets = [r for r in walk_no_nested(f.node) if isinstance(r, ast.Return)]
-        ok = len(rets) == 1 and isinstance(rets[0].value, ast.Call) and norm(rets[0].value.func) == f"backend.{f.name}"
-        rep.add("C01.R1", f"{f.qualname}:dispatch", f.loc, ok, f"einx.{f.name} -> backend.{f.name}" if ok else f"einx.{f.name} returns `{norm(rets[0].value.func) if rets and isinstance(rets[0].value, ast.Call) else '?'}`: the public name computes a different operation")
+        opname, bcall = common.backend_call_of(p, f) if len(rets) == 1 else (None, None)
+        ok = opname == f.name
+        rep.add("C01.R1", f"{f.qualname}:dispatch", f.loc, ok, f"einx.{f.name} -> backend.{f.name}" if ok else f"einx.{f.name} returns `{norm(bcall.func) if bcall is not None else '?'}`: the public name computes a different operation")
         rep.add("C01.R1", f"{f.qualname}:in-family-table", f.loc, f.name in keys, f"{f.name} has a family constructor in _name_to_op" if f.name in keys else f"public operation {f.name} has no entry in einx_from_namedtensor._name_to_op")
     # (b) family lists are covered by _name_to_op and by the public wrappers
     wn = {f.name for f in wrappers}
@@ -511,44 +510,70 @@ def r9(p, rep):
         rep.add("C01.R9", f"{m.qualname}:concatenated-axis-pick", f"{m.module.rel}:{a.lineno}", ok, f"takes the {sel} concatenated axis" if ok else f"{m.name} takes the {sel} concatenated axis of an expression, {picks[0][0].name} the {ref} one: with two concatenations in one expression ('(a + b) (c + d)') the pieces are produced in one nesting order and consumed in the other, so blocks end up swapped (silently when the block sizes allow the final reshape)")
 
 
+def window_loops(fnode):
+    """[(seq, k, m, range call)] for loops `for i in range(len(seq) - k)` whose body reads seq[i + m], m > 0"""
+    out = []
+    for node in walk_no_nested(fnode):
+        gens = []
+        if isinstance(node, (ast.ListComp, ast.SetComp, ast.GeneratorExp, ast.DictComp)):
+            gens = [(g.target, g.iter, node) for g in node.generators]
+        elif isinstance(node, ast.For):
+            gens = [(node.target, node.iter, node)]
+        for tgt, it, body in gens:
+            if not (isinstance(tgt, ast.Name) and isinstance(it, ast.Call) and isinstance(it.func, ast.Name) and it.func.id == "range" and len(it.args) == 1):
+                continue
+            b = it.args[0]
+            k, seq = None, None
+            if isinstance(b, ast.BinOp) and isinstance(b.op, ast.Sub) and isinstance(b.right, ast.Constant) and isinstance(b.right.value, int) and isinstance(b.left, ast.Call) and norm(b.left.func) == "len" and b.left.args:
+                k, seq = b.right.value, norm(b.left.args[0])
+            elif isinstance(b, ast.Call) and norm(b.func) == "len" and b.args:
+                k, seq = 0, norm(b.args[0])
+            if seq is None:
+                continue
+            offs = []
+            simple = True
+            for x in ast.walk(body):
+                if isinstance(x, ast.Subscript) and norm(x.value) == seq:
+                    sl = x.slice
+                    if isinstance(sl, ast.Name) and sl.id == tgt.id:
+                        offs.append(0)
+                    elif isinstance(sl, ast.BinOp) and isinstance(sl.op, ast.Add) and isinstance(sl.left, ast.Name) and sl.left.id == tgt.id and isinstance(sl.right, ast.Constant) and isinstance(sl.right.value, int):
+                        offs.append(sl.right.value)
+                    elif isinstance(sl, ast.BinOp) and isinstance(sl.op, ast.Add) and isinstance(sl.right, ast.Name) and sl.right.id == tgt.id and isinstance(sl.left, ast.Constant) and isinstance(sl.left.value, int):
+                        offs.append(sl.left.value)
+                    elif any(isinstance(y, ast.Name) and y.id == tgt.id for y in ast.walk(sl)):
+                        simple = False
+            if not simple or not offs or max(offs) == 0:
+                continue
+            out.append((seq, k, max(offs), it))
+    return out
+
+
 def r10(p, rep):
-    rep.rule("C01.R10", "a loop over adjacent pairs / windows of a sequence covers all of them: range(len(xs) - k) with xs[i + m] needs k == m", "bounds lint (window width vs range bound)", floor=2)
+    rep.rule("C01.R10", "a loop over adjacent pairs / windows of a sequence covers all of them: range(len(xs) - k) with xs[i + m] needs k == m", "bounds lint (window width vs range bound) with a positive self-check", floor=1)
+    import os
+
     n = 0
     for f in p.funcs.values():
-        for node in walk_no_nested(f.node):
-            gens = []
-            if isinstance(node, (ast.ListComp, ast.SetComp, ast.GeneratorExp, ast.DictComp)):
-                gens = [(g.target, g.iter, node) for g in node.generators]
-            elif isinstance(node, ast.For):
-                gens = [(node.target, node.iter, node)]
-            for tgt, it, body in gens:
-                if not (isinstance(tgt, ast.Name) and isinstance(it, ast.Call) and isinstance(it.func, ast.Name) and it.func.id == "range" and len(it.args) == 1):
-                    continue
-                b = it.args[0]
-                k, seq = None, None
-                if isinstance(b, ast.BinOp) and isinstance(b.op, ast.Sub) and isinstance(b.right, ast.Constant) and isinstance(b.right.value, int) and isinstance(b.left, ast.Call) and norm(b.left.func) == "len" and b.left.args:
-                    k, seq = b.right.value, norm(b.left.args[0])
-                elif isinstance(b, ast.Call) and norm(b.func) == "len" and b.args:
-                    k, seq = 0, norm(b.args[0])
-                if seq is None:
-                    continue
-                offs = []
-                simple = True
-                for x in ast.walk(body):
-                    if isinstance(x, ast.Subscript) and norm(x.value) == seq:
-                        sl = x.slice
-                        if isinstance(sl, ast.Name) and sl.id == tgt.id:
-                            offs.append(0)
-                        elif isinstance(sl, ast.BinOp) and isinstance(sl.op, ast.Add) and isinstance(sl.left, ast.Name) and sl.left.id == tgt.id and isinstance(sl.right, ast.Constant) and isinstance(sl.right.value, int):
-                            offs.append(sl.right.value)
-                        elif any(isinstance(y, ast.Name) and y.id == tgt.id for y in ast.walk(sl)):
-                            simple = False
-                if not simple or not offs or max(offs) == 0:
-                    continue
-                n += 1
-                m = max(offs)
-                ok = k == m
-                rep.add("C01.R10", f"{f.qualname}:window({seq})", f"{f.module.rel}:{it.lineno}", ok, f"range(len({seq}) - {k}) with {seq}[i + {m}]: all windows are visited" if ok else (f"range(len({seq}) - {k}) but the body reads {seq}[i + {m}]: " + ("the last window(s) are never compared (e.g. the last pair of bracketed axes is not checked for adjacency, so a needed transpose is skipped)" if k > m else "the last iteration indexes past the end (IndexError)")))
+        if not isinstance(f.node, (ast.FunctionDef, ast.AsyncFunctionDef)):
+            continue
+        for seq, k, m, it in window_loops(f.node):
+            n += 1
+            ok = k == m
+            rep.add("C01.R10", f"{f.qualname}:window({seq})", f"{f.module.rel}:{it.lineno}", ok, f"range(len({seq}) - {k}) with {seq}[i + {m}]: all windows are visited" if ok else (f"range(len({seq}) - {k}) but the body reads {seq}[i + {m}]: " + ("the last window(s) are never compared (e.g. the last pair of bracketed axes is not checked for adjacency, so a needed transpose is skipped)" if k > m else "the last iteration indexes past the end (IndexError)")))
+    # window loops may legitimately disappear (pairs via zip(xs, xs[1:])): the lint is kept honest by a positive example
+    pos = os.path.join(os.path.dirname(os.path.dirname(os.path.abspath(__file__))), "selftest", "positive", "window_bounds.py")
+    tree = ast.parse(open(pos).read())
+    from sa.core import set_parents
+
+    set_parents(tree)
+    fns = {x.name: x for x in tree.body if isinstance(x, ast.FunctionDef)}
+    bad = [(k, m) for _, k, m, _ in window_loops(fns["bad"])]
+    good = [(k, m) for _, k, m, _ in window_loops(fns["good"])]
+    if bad != [(2, 1)] or good != [(1, 1)]:
+        raise AnalysisError("self-check of the window-bounds lint failed on selftest/positive/window_bounds.py")
+    rep.ok("C01.R10", "self-check:positive-example", "selftest/positive/window_bounds.py", "the lint reports the seeded positive example (range(len(xs) - 2) with xs[i + 1]) and accepts its corrected twin")
+    rep.ok("C01.R10", "sweep", "einx/", f"{n} window loops in the package inspected", nontrivial=False)
     return n
 
 
